@@ -21,6 +21,14 @@ def indexesLastCertFact : Bool :=
     ["candidate.Height > 1 => err = c.FSM.Store().(lib.StoreI).IndexQC(candidate.LastQuorumCertificate)"] &&
   applyAndValidateFirst == ["c.CheckAndSetLastCertificate", "c.FSM.ApplyBlock"]
 
+/-- `ProduceProposal` patches the cached header, hashes it, and only then sets the block result's header
+and finalises the certificate results (slash recipients, checkpoint = (height, block hash)): the
+results the leader ships quote the FINAL header hash, the one every replica recomputes -/
+def resultsFinalisedAfterHashFact : Bool :=
+  produceProposalFinalise ==
+    ["header.LastQuorumCertificate, header.Vdf = ...", "SetHash", "Marshal(block)",
+     "BlockResult.BlockHeader = header", "CalculateSlashRecipients", "CalculateCheckpoint(BlockResult)"]
+
 end Canopy.Exec
 
 namespace Canopy.Atomic
